@@ -78,6 +78,13 @@ AsList(t) == IF IsList(t) THEN t.v ELSE <<t>>
 OutArgs(fixed, chans, zeros, z, audio) ==
     fixed \o (IF audio THEN AsList(ReplaceZeros(chans, zeros, z)) ELSE AsList(chans))
 
+\* Expansion is a function of the argument values: the argument objects handed to a call are not changed
+\* by it (so using the same list / ChannelList object in two calls of one build gives what two fresh, equal
+\* lists give).  `after` is what the caller's argument objects look like after the call.
+RECURSIVE ArgTree(_, _)
+ArgTree(t, atext) == IF IsList(t) THEN List([i \in 1..Len(t.v) |-> ArgTree(t.v[i], atext)]) ELSE Val(atext[t.a])
+Unchanged(as, after, atext) == after = [j \in 1..Len(as) |-> ArgTree(as[j], atext)]
+
 (* ------------------------------------------------------------------ L2: the code's algorithms *)
 RECURSIVE MultiNew(_)
 MultiNew(args) ==        \* SynthObject._multi_new
